@@ -74,6 +74,18 @@ func genC08(t *rapid.T) c08Prog {
 		p.ClockID = rapid.SliceOfN(rapid.Byte(), 1, 70).Draw(t, "clockid")
 	}
 	p.Heads = rapid.SliceOfN(rapid.IntRange(0, len(cidPool)-1), 1, 8).Draw(t, "heads")
+	// a caller may name a predecessor or a reference twice (the library drops the repetition): the entry is still
+	// one logical entry with one identifier
+	if rapid.IntRange(0, 3).Draw(t, "repeatLinks") == 0 {
+		if len(p.Next) >= 2 {
+			i := rapid.IntRange(0, len(p.Next)-1).Draw(t, "dupNext")
+			at := rapid.IntRange(0, len(p.Next)).Draw(t, "dupNextAt")
+			p.Next = append(p.Next[:at:at], append([]int{p.Next[i]}, p.Next[at:]...)...)
+		}
+		if len(p.Refs) >= 2 && rapid.Bool().Draw(t, "dupRefs") {
+			p.Refs = append(p.Refs, p.Refs[0])
+		}
+	}
 	return p
 }
 
@@ -306,7 +318,8 @@ func runC08(tb ev.TB, p c08Prog) ev.Result {
 		if err := dv.Verify(provider, io); err != nil {
 			tb.Fatalf("the %s-sibling read back does not verify (codec %s): %v", variant, codec, err)
 		}
-		if sv.GetHash().Equals(e.GetHash()) {
+		// (with repeated links the variant may be the same logical entry: the library drops repetitions)
+		if sv.GetHash().Equals(e.GetHash()) && !(sameCids(sv.GetNext(), e.GetNext()) && sameCids(sv.GetRefs(), e.GetRefs()) && bytes.Equal(sv.GetPayload(), e.GetPayload()) && sv.GetClock().GetTime() == e.GetClock().GetTime()) {
 			tb.Fatalf("two entries that differ in %s have the same identifier", variant)
 		}
 	}
